@@ -442,6 +442,8 @@ def _fam_lscr_shared_locals_cancel_args(n): return _lscr_fam("fam_shared_locals_
 def _fam_lscr_shared_locals_cancel_globs(n): return _lscr_fam("fam_shared_locals_cancel", n, 20 * n, "globs")
 def _fam_lscr_shared_code(n): return _lscr_fam("fam_shared_code", n, 10 * n)
 def _fam_lscr_shared_consts(n): return _lscr_fam("fam_shared_consts", 15 * n, 100 * n)
+def _fam_lscr_neg_length_consts(n): return _lscr_fam("fam_neg_length_consts", 15 * n, 100 * n)
+def _fam_lscr_neg_length_floats(n): return _lscr_fam("fam_neg_length_consts", 15 * n, 100 * n, 9)
 
 def _vwsc(recs, channels=3):
     body = b"".join(struct.pack(">h", 2 + sum(4 + len(d) for _, d in r)) + b"".join(struct.pack(">hh", len(d), o) + d for o, d in r) for r in recs)
@@ -471,7 +473,7 @@ FAMILIES_SCALING = dict(vwsc_frames=(_fam_vwsc_frames, 300), vwsc_overrun=(_fam_
                         lscr_shared_locals=(_fam_lscr_shared_locals, 10), lscr_shared_code=(_fam_lscr_shared_code, 10),
                         lscr_shared_args=(_fam_lscr_shared_args, 10), lscr_shared_globs=(_fam_lscr_shared_globs, 10),
                         lscr_shared_locals_cancel_args=(_fam_lscr_shared_locals_cancel_args, 10), lscr_shared_locals_cancel_globs=(_fam_lscr_shared_locals_cancel_globs, 10),
-                        lscr_shared_consts=(_fam_lscr_shared_consts, 40), vwlb_zigzag=(_fam_vwlb_zigzag, 1500), lscr_nested=(_fam_lscr_nested, 100), riff=(_fam_riff, 300), mmap=(_fam_mmap, 300), cas=(_fam_cas, 2000), key=(_fam_key, 500), locate=(_fam_locate, 500),
+                        lscr_shared_consts=(_fam_lscr_shared_consts, 40), lscr_neg_length_consts=(_fam_lscr_neg_length_consts, 40), lscr_neg_length_floats=(_fam_lscr_neg_length_floats, 40), vwlb_zigzag=(_fam_vwlb_zigzag, 1500), lscr_nested=(_fam_lscr_nested, 100), riff=(_fam_riff, 300), mmap=(_fam_mmap, 300), cas=(_fam_cas, 2000), key=(_fam_key, 500), locate=(_fam_locate, 500),
                         lscr_straight=(_fam_lscr_straight, 250), lscr_loops=(_fam_lscr_loops, 120), lscr_ifs=(_fam_lscr_ifs, 150))
 SCALING_MAX_RATIO = 2.6      # doubling the input may at most (a bit more than) double the executed lines
 
@@ -543,6 +545,12 @@ def cases(rng, tier):
         return Case(kind=f"{name}:{kind}", spec=spec, lines=lines, expect=[None] * len(lines))
     for name, data, aux, kind in small_field_grid() + snd_two_command_grid() + layout_pair_grid() + shared_record_grid():
         out.append(mk(name, data, aux, kind))
+    # constant records whose length word is negative so that the slice end counts from the end of the file (F161), small enough for
+    # the model to be compared on them
+    for ctype in (1, 9):
+        for k, pad in ((1, 8), (3, 40), (8, 200), (40, 1000)):
+            name, data, aux = _lscr_fam("fam_neg_length_consts", k, pad, ctype)
+            out.append(mk(name, data, aux, "neg-length-consts"))
     for name in DECODERS:
         ss = S.get(name) or [(b"", {})]
         for data, aux in ss:
